@@ -64,7 +64,7 @@ def concurrent_cases(draw, strategy=None):
           'choices': draw(st.lists(st.integers(0, 4), max_size=8)), 'first': draw(st.integers(0, 1))}
   if draw(st.integers(0, 3)) == 0:
     case['max_cache_size'] = draw(st.integers(1, 4))     # bounded cache: the same clauses hold (refusals per C10)
-    case['flow'] = False
+    case['flow'] = draw(st.booleans())                   # flow control: "nearly full" announced, watermark checked in drains
   return case
 
 
@@ -84,7 +84,7 @@ def sequential_cases(draw, strategy=None):
           'choices': draw(st.lists(st.integers(0, 4), max_size=20)), 'first': 0}
   if draw(st.integers(0, 3)) == 0:
     case['max_cache_size'] = draw(st.integers(1, 4))
-    case['flow'] = False
+    case['flow'] = draw(st.booleans())
   return case
 
 
@@ -154,7 +154,7 @@ def execute(ctx, case):
   if case.get('max_cache_size') is not None:
     # a new timestamp may be refused when full (whether it must be is C10's business: the store's own
     # overflow signal tells which happened); an update of a cached timestamp always takes effect
-    spec = cachesim.make_spec(hard_max=case['max_cache_size'], check_overflow=True)
+    spec = cachesim.make_spec(hard_max=cachesim.derived_limits(case['max_cache_size'], case.get('flow'))[1], check_overflow=True)
   if not judge(ctx, case, run, bad, spec=spec):
     return
   conc = bool(case['programs'][1])
